@@ -204,7 +204,7 @@ func (c *C01Case) mustReject(b *Built, coord []int) string {
 	return ""
 }
 
-var c01Layouts = []string{"contig", "cmraw", "cmconv", "sliced", "stepsliced", "lazyT", "slicedT", "Tsliced", "picked", "cmraw+sliced", "cmraw+lazyT", "cmconv+sliced", "cmconv+lazyT"}
+var c01Layouts = []string{"contig", "cmraw", "cmconv", "sliced", "stepsliced", "lazyT", "slicedT", "Tsliced", "picked", "pickslice", "cmraw+sliced", "cmraw+lazyT", "cmconv+sliced", "cmconv+lazyT"}
 
 func genC01Shape(t *rapid.T) []int {
 	switch rapid.IntRange(0, 9).Draw(t, "shapeclass") {
